@@ -315,7 +315,10 @@ def rule_H2(ctx):
     from .peval import struct_formats, Unsupported, is_const
     enc = m.funcs.get('bitstore_helpers:float2bitstore')
     if enc is None:
-        raise AnalysisError('anchor vanished: bitstore_helpers.float2bitstore')
+        # the flag-taking encoder is gone (one routine per byte order, say): the shared setter that takes the flag is evaluated instead
+        enc = m.funcs.get('bits:Bits._setfloat')
+        if enc is None or not any('endian' in p for p in enc.params()):
+            raise AnalysisError('anchor vanished: bitstore_helpers.float2bitstore')
     lp = [p for p in enc.params() if 'length' in p]
     bp = [p for p in enc.params() if 'endian' in p]
     if len(lp) != 1 or len(bp) != 1:
@@ -405,6 +408,10 @@ def rule_SFMT(ctx):
             return const_prefix(e.left, f, depth)
         if isinstance(e, ast.IfExp):
             a, b = const_prefix(e.body, f, depth), const_prefix(e.orelse, f, depth)
+            return None if a is None or b is None else (a and b)
+        if isinstance(e, ast.Subscript) and isinstance(e.value, ast.IfExp):
+            # (TABLE_A if c else TABLE_B)[k]: both tables
+            a, b = (const_prefix(ast.Subscript(value=t, slice=e.slice, ctx=ast.Load()), f, depth) for t in (e.value.body, e.value.orelse))
             return None if a is None or b is None else (a and b)
         if isinstance(e, ast.Subscript):
             base = e.value
@@ -614,6 +621,33 @@ def rule_H6(ctx):
             r.ok(w, {'instance': 'Bits.tofile', 'verdict': 'single unchunked write'})
         return r
     if not cuts:
+        # the loop lives in a routine the file object is handed to: its step parameter, bound to the folded argument, is the chunk size
+        fparam = [p for p in f.params() if p != 'self'][:1]
+        for c in own_walk(f.node):
+            if not (isinstance(c, ast.Call) and isinstance(c.func, ast.Attribute) and fparam and any(isinstance(a, ast.Name) and a.id == fparam[0] for a in c.args)):
+                continue
+            gs = [g for g in m.funcs.values() if g.name == c.func.attr and g.cls is not None]
+            if len(gs) != 1:
+                continue
+            g = gs[0]
+            bind = dict(zip(g.params()[1:], c.args))
+            steps = [x for x in own_walk(g.node) if isinstance(x, ast.AugAssign) and isinstance(x.op, ast.Add) and isinstance(x.value, ast.Name) and x.value.id in bind]
+            gw = [x for x in own_walk(g.node) if isinstance(x, ast.Call) and isinstance(x.func, ast.Attribute) and x.func.attr == 'write']
+            if not steps or not gw:
+                continue
+            for st in steps:
+                arg = bind[st.value.id]
+                try:
+                    v = fold(arg, env)
+                except (ValueError, TypeError):
+                    r.fail(f.key, c, 'chunk size is not a compile-time constant; cannot show that chunks are whole bytes', loc=f.loc(c))
+                    continue
+                if not isinstance(v, int) or v <= 0 or v % 8:
+                    r.fail(f.key, f"{g.name}({ast.unparse(arg)}) = {v}", f"chunk size {v} is not a positive multiple of 8: every full "
+                           'chunk would be zero-padded in the middle of the file', loc=f.loc(c))
+                else:
+                    r.ok(c, {'instance': f'Bits.tofile chunk (via {g.key})', 'folded': v, 'verdict': f'{v} % 8 == 0'})
+            return r
         raise AnalysisError('Bits.tofile: neither a chunked cut() loop nor a write found (needs a human)')
     for c in cuts:
         if not c.args and not c.keywords:
